@@ -4,7 +4,6 @@ import (
 	"strconv"
 	"strings"
 
-	"github.com/alecthomas/participle/v2"
 	"github.com/alecthomas/participle/v2/lexer"
 )
 
@@ -99,7 +98,7 @@ func precclimbParseOp(op string, lhs *precclimbExpr, rhs *precclimbExpr) *preccl
 	}
 }
 
-var precclimbParser = participle.MustBuild[precclimbExpr]()
+var precclimbParser = mustBuild[precclimbExpr]()
 
 func init() {
 	f := Register("precedenceclimbing", precclimbParser, nil,
